@@ -43,6 +43,39 @@ func C02(c *Ctx) {
 	c.runKnownF02()
 	c.ModelCheck(cfg)
 	c.c02RawBlocks()
+	// deep nesting: label scopes and values several hundred levels deep (every internal stack of the
+	// runtime grows past whatever it was sized for while a labelled expression is being evaluated)
+	dcfg := *cfg
+	dcfg.Grammars = c02DeepStrata()
+	dcfg.NGrammars = 0
+	dcfg.InputsPer, dcfg.ExhaustLimit = 0, 0
+	dcfg.Entrypoints = false
+	dcfg.DebugEvery = 0
+	dcfg.ExtraInputs = func(g *gast.Grammar, r *rand.Rand) [][]byte {
+		var out [][]byte
+		for _, d := range []int{1, 30, 70, 100, 130, 200, 257, 300, 420, 600} {
+			out = append(out, []byte(strings.Repeat("[", d)+"x"+strings.Repeat("]", d)), []byte(strings.Repeat("(", d)+"1"+strings.Repeat(")", d)+"+2"),
+				[]byte(strings.Repeat("<", d)+"a"+strings.Repeat(">", d)), []byte(strings.Repeat("[", d)+"x"+strings.Repeat("]", d-1)), []byte(strings.Repeat("1+", d)+"1"))
+		}
+		return out
+	}
+	c.ModelCheck(&dcfg)
+}
+
+func c02DeepStrata() []*gast.Grammar {
+	mk := func(rules ...*gast.Rule) *gast.Grammar { return &gast.Grammar{Rules: rules} }
+	r := func(n string, e *gast.Expr) *gast.Rule { return &gast.Rule{Name: n, Expr: e} }
+	act := func(e *gast.Expr, id int) *gast.Expr { return gast.A(e, id, mon.Spec{}) }
+	dig := func() *gast.Expr { return gast.Cl(&gast.ClassSpec{Ranges: [][2]rune{{'0', '9'}}}) }
+	return []*gast.Grammar{
+		// the first (and only) label of each scope is bound after a deep recursion below it
+		mk(r("L", gast.C(act(gast.S(gast.L("["), gast.Lab("inner", gast.Ref("L")), gast.L("]")), 1), act(gast.Lab("x", gast.L("x")), 2)))),
+		mk(r("E", gast.C(act(gast.S(gast.Lab("a", gast.Ref("T")), gast.L("+"), gast.Lab("b", gast.Ref("E"))), 1), act(gast.Lab("a", gast.Ref("T")), 2))),
+			r("T", gast.C(act(gast.S(gast.L("("), gast.Lab("e", gast.Ref("E")), gast.L(")")), 3), act(gast.Lab("n", dig()), 4)))),
+		mk(r("S", act(gast.Lab("items", gast.Star(act(gast.Lab("i", gast.Ref("Item")), 1))), 2)), r("Item", gast.C(act(gast.S(gast.L("<"), gast.Lab("c", gast.Ref("S")), gast.L(">")), 3), gast.L("a")))),
+		// a predicate reading the label in the middle of the scope, and a second label after it
+		mk(r("L", gast.C(act(gast.S(gast.L("["), gast.Lab("inner", gast.Ref("L")), gast.AndC(3, mon.Spec{}), gast.Lab("close", gast.L("]"))), 1), act(gast.Lab("x", gast.L("x")), 2)))),
+	}
 }
 
 // c02RawBlocks: code blocks with byte-identical text in different rules whose labels are bound in a
@@ -417,7 +450,7 @@ func C11(c *Ctx) {
 	p.W[gast.StateCode] = 5
 	p.PDisplay = 40
 	p.ActSpec = func(r *rand.Rand) mon.Spec {
-		return mon.Spec{R: pick(r, 0, 0, 1, 3), E: pick(r, 0, 0, 1, 2, 2, 3, 4, 5), P: pick(r, 0, 0, 0, 0, 0, 0, 1, 2, 3)}
+		return mon.Spec{R: pick(r, 0, 0, 1, 3), E: pick(r, 0, 0, 1, 2, 2, 3, 4, 5, 6), P: pick(r, 0, 0, 0, 0, 0, 0, 1, 2, 3)}
 	}
 	p.PredSpec = func(r *rand.Rand) mon.Spec {
 		return mon.Spec{B: pick(r, 0, 0, 1, 4), E: pick(r, 0, 0, 1, 2, 3), P: pick(r, 0, 0, 0, 0, 0, 0, 0, 1, 2)}
@@ -492,6 +525,12 @@ func c11Strata() []*gast.Grammar {
 			r("Inner", gast.Rec(gast.Ref("Item"), gast.S(gast.AndC(3, mon.Spec{E: 1}), gast.A(gast.L("!"), 4, mon.Spec{E: 1})), "L1")), r("Item", gast.C(gast.A(gast.Plus(gast.Cl(gast.Chars("01"))), 5, mon.Spec{}), gast.Thr("L1")))),
 		// panic with string / value payloads in predicate and state blocks
 		mk(r("S", gast.S(gast.L("a"), gast.AndC(1, mon.Spec{P: 2}), gast.St(2, mon.Spec{P: 3}), gast.L("b")))),
+		// errors of an uncomparable dynamic type (a slice), several in a row at different positions and,
+		// through the shared prefix, twice at one position: recording and de-duplicating them must not
+		// compare the error values themselves
+		mk(r("S", gast.A(gast.Star(gast.S(gast.Ref("F"), gast.Opt(gast.L(",")))), 9, mon.Spec{})), r("F", gast.C(gast.S(gast.Ref("W"), gast.L("!")), gast.Ref("W"))),
+			r("W", gast.A(gast.Plus(gast.Cl(gast.Chars("ab"))), 1, mon.Spec{E: 6}))),
+		mk(r("S", gast.S(gast.A(gast.L("a"), 1, mon.Spec{E: 6}), gast.AndC(2, mon.Spec{E: 6}), gast.A(gast.L("b"), 3, mon.Spec{E: 6}), gast.St(4, mon.Spec{S: 1, E: 6}), gast.Star(gast.Dot())))),
 	}
 }
 
@@ -542,6 +581,15 @@ func C12(c *Ctx) {
 	mcfg.FlagSets = [][]string{{}, {"-optimize-basic-latin"}}
 	mcfg.OptSets = []OptSet{{Name: "memoize", Memo: true}}
 	c.ModelCheck(&mcfg)
+	// inputs that are not valid UTF-8 under AllowInvalidUTF8(true) (without the option the encoding
+	// errors take the place of the "no match" error): every malformed byte is a rune of its own, also
+	// for the line and column of the farthest failure
+	icfg := *cfg
+	icfg.NGrammars = c.N(40, 500)
+	icfg.Invalid = true
+	icfg.FlagSets = [][]string{{}, {"-optimize-basic-latin"}, {"-optimize-parser"}}
+	icfg.OptSets = []OptSet{{Name: "allowinvalid", AllowInvalid: true}}
+	c.ModelCheck(&icfg)
 	c.lrPass(12, c.N(40, 400), CmpNoMatch|CmpOK, []OptSet{{Name: "default"}}, false, cfg.NonTrivial)
 }
 
@@ -619,8 +667,20 @@ func C14(c *Ctx) {
 	p.W[gast.AndCode] = 3
 	p.W[gast.NotCode] = 3
 	p.PUClass = 0
+	// handlers are dynamically scoped, so the order in which the rules are written must not matter:
+	// every stratum also runs with the rules after the first in the opposite order (throwing rules
+	// then stand before every operator that lists their label), and so does every second random grammar
+	strata := c14Strata()
+	for _, g := range c14Strata() {
+		if len(g.Rules) > 2 {
+			for a, b := 1, len(g.Rules)-1; a < b; a, b = a+1, b-1 {
+				g.Rules[a], g.Rules[b] = g.Rules[b], g.Rules[a]
+			}
+			strata = append(strata, g)
+		}
+	}
 	cfg := &MCConfig{
-		Profile: p, Grammars: c14Strata(), NGrammars: c.N(300, 2500),
+		Profile: p, Grammars: strata, NGrammars: c.N(300, 2500), ReverseRules: true,
 		FlagSets:  [][]string{{}, {"-optimize-parser"}},
 		InputsPer: c.N(90, 200), ExhaustLimit: c.N(200, 800), ExhaustLen: 6,
 		Compare:    CmpVal | CmpEnd | CmpTrace | CmpOK,
